@@ -99,19 +99,51 @@ class Case:
         self.td, self.optname, self.opts, self.datum = td, optname, opts, datum
 
 
+def R(d) -> str:
+    """repr that survives integers past the str-conversion limit"""
+    try:
+        return repr(d)
+    except ValueError:
+        return f"<int of {d.bit_length()} bits>" if isinstance(d, int) else "<unprintable>"
+
+
+def json_like(d) -> bool:
+    """inside the domain of the reference semantics: JSON classes, string keys, integers of ordinary size"""
+    if d is None or type(d) in (bool, str):
+        return True
+    if type(d) is int:
+        return abs(d) < 10**400
+    if type(d) is float:
+        return d == d and abs(d) != float("inf")
+    if type(d) is list:
+        return all(json_like(x) for x in d)
+    if type(d) is dict:
+        return all(type(k) is str and json_like(v) for k, v in d.items())
+    return False
+
+
+def jsonable_small(d) -> bool:
+    try:
+        json.dumps(d)
+        return True
+    except Exception:
+        return False
+
+
 def run(report, tier: str, seed: int, clauses: Tuple[str, ...], log_name: str):
     """clauses subset of {'accept', 'image', 'errors', 'crash', 'pure'}"""
     from apischema import ValidationError, deserialize
     from apischema.deserialization import deserialization_method
 
     rng = random.Random(seed)
-    pool = P.type_pool(tier)
+    pool = P.type_pool(tier, python_objects=set(clauses) <= {"crash", "pure"})
     optnames = ["default", "additional", "fallback", "camel"] if tier == "quick" else ["default", "additional", "fallback", "camel", "no_copy_false"]
     if set(clauses) <= {"crash", "pure"}:
         optnames = optnames + ["coerce"]
+    pyobj = f", {len(P.PYTHON_OBJECTS)} non-JSON Python objects and non-string-key mutants" if set(clauses) <= {"crash", "pure"} else ""
     log = report.driver(
         log_name,
-        bound=f"type pool of {len(pool)} descriptions (grammar depth <= {'2' if tier == 'quick' else '3'}) x option sets {optnames} x per-type datum pools (valid samples, <= {30 if tier == 'quick' else 80} boundary mutants each, {len(P.ATOMS)} atoms, {6 if tier == 'quick' else 40} seeded random values)",
+        bound=f"type pool of {len(pool)} descriptions (grammar depth <= {'2' if tier == 'quick' else '3'}) x option sets {optnames} x per-type datum pools (valid samples, <= {30 if tier == 'quick' else 80} boundary mutants each, {len(P.ATOMS)} atoms, {6 if tier == 'quick' else 40} seeded random values{pyobj})",
     )
     log.rule("case = (type description, option set, datum); the run-time postcondition of deserialize is the reference semantics of drivers/model.py (written from the statement); distinct by that triple; non-trivial when the datum is a dict / list or the type is not a bare primitive")
     realm = M.Realm("deser")
@@ -137,11 +169,12 @@ def run(report, tier: str, seed: int, clauses: Tuple[str, ...], log_name: str):
                 log.fail(f"compile:{short(td)}:{optname}:{type(e).__name__}", f"deserialization_method({short(td)}, {optname}) raised {e!r}", {"type": short(td), "options": optname}, observed=repr(e), functions_involved=[])
                 continue
             involved = None
-            for d in P.data_pool(td, tier, rng):
+            for d in P.data_pool(td, tier, rng, python_objects=set(clauses) <= {"crash", "pure"}):
                 before = copy.deepcopy(d)
                 nontrivial = isinstance(d, (list, dict)) or not isinstance(td, M.Prim)
-                log.case((short(td), optname, repr(d)), nontrivial, sample={"type": short(td), "options": optname, "datum": d} if nontrivial else None)
-                exp = M.ref_deserialize(td, copy.deepcopy(d), realm, mopts) if ref_known else ("?", None)
+                log.case((short(td), optname, R(d)), nontrivial, sample={"type": short(td), "options": optname, "datum": d if jsonable_small(d) else R(d)} if nontrivial else None)
+                ref_here = ref_known and json_like(d)
+                exp = M.ref_deserialize(td, copy.deepcopy(d), realm, mopts) if ref_here else ("?", None)
                 try:
                     got: Tuple[str, Any] = ("ok", meth(d))
                 except ValidationError as e:
@@ -164,9 +197,9 @@ def run(report, tier: str, seed: int, clauses: Tuple[str, ...], log_name: str):
                         except Exception:
                             involved = []
                     log.fail(
-                        f"{kind}:{short(td)}:{optname}:{d!r}",
-                        f"{kind}: deserialize({short(td)}, {d!r}, {optname}): {summary}",
-                        {"type": short(td), "options": optname, "datum": repr(d)},
+                        f"{kind}:{short(td)}:{optname}:{R(d)}",
+                        f"{kind}: deserialize({short(td)}, {R(d)}, {optname}): {summary}",
+                        {"type": short(td), "options": optname, "datum": R(d)},
                         observed=repr(got)[:600],
                         expected=repr(exp)[:600],
                         functions_involved=involved,
@@ -174,11 +207,13 @@ def run(report, tier: str, seed: int, clauses: Tuple[str, ...], log_name: str):
 
                 if got[0] == "crash":
                     if "crash" in clauses:
-                        fail("crash", f"escaped with {got[1]}")
+                        # the signature carries the escaping exception, so that a known finding
+                        # never covers a different crash on the same input
+                        fail("crash<" + got[1].split(":")[0].strip()[:40] + ">", f"escaped with {got[1]}")
                     continue
                 if "pure" in clauses and not deep_eq(before, d):
-                    fail("input-mutated", f"input changed to {d!r}")
-                if not ref_known:
+                    fail("input-mutated", f"input changed to {R(d)}")
+                if not ref_here or exp[0] == "?":
                     continue
                 if got[0] != exp[0]:
                     if "errors" in clauses and "accept" not in clauses and exp[0] == "err":
@@ -281,7 +316,7 @@ def replay_case(rp: dict) -> int:
         M.realize(o, realm)
     rng = random.Random(0)
     for tier in ("quick", "thorough"):
-        for td in P.type_pool(tier):
+        for td in P.type_pool(tier, python_objects=True):
             if short(td) != case.get("type"):
                 continue
             o = OPTION_SETS[case["options"]]
@@ -289,11 +324,11 @@ def replay_case(rp: dict) -> int:
             tp = M.realize(td, realm)
             meth = deserialization_method(tp, **o)
             for t2 in ("quick", "thorough"):
-                for d in P.data_pool(td, t2, random.Random(int(os.environ.get("VERIF_SEED", "0")))):
-                    if repr(d) != case.get("datum"):
+                for d in P.data_pool(td, t2, random.Random(int(os.environ.get("VERIF_SEED", "0"))), python_objects=True):
+                    if R(d) != case.get("datum"):
                         continue
                     before = copy.deepcopy(d)
-                    exp = M.ref_deserialize(td, copy.deepcopy(d), realm, mk_opts(o)) if case["options"] != "coerce" else ("?", None)
+                    exp = M.ref_deserialize(td, copy.deepcopy(d), realm, mk_opts(o)) if case["options"] != "coerce" and json_like(d) else ("?", None)
                     try:
                         got = ("ok", meth(d))
                     except ValidationError as e:
@@ -302,7 +337,7 @@ def replay_case(rp: dict) -> int:
                         got = ("crash", f"{type(e).__name__}: {e}")
                     print("type    :", short(td))
                     print("options :", case["options"])
-                    print("datum   :", repr(d))
+                    print("datum   :", R(d))
                     print("observed:", repr(got)[:500])
                     print("required:", repr(exp)[:500])
                     failing = (
